@@ -153,10 +153,13 @@ Arguments str s%string.
 
 Definition sp : byte := x20.
 
+(* stdlib [rev] is quadratic; this one is linear (and equal: [rev_append_rev]) *)
+Definition fast_rev {A} (l : list A) : list A := rev_append l [].
+
 Fixpoint split_on (sep : byte) (cs : bytes) (cur : bytes) : list bytes :=
   match cs with
-  | [] => [rev cur]
-  | c :: r => if byte_eqb c sep then rev cur :: split_on sep r [] else split_on sep r (c :: cur)
+  | [] => [fast_rev cur]
+  | c :: r => if byte_eqb c sep then fast_rev cur :: split_on sep r [] else split_on sep r (c :: cur)
   end.
 Definition tokens (line : bytes) : list bytes := split_on sp line [].
 
